@@ -108,6 +108,7 @@ class Path:
         self.events = []
         self.depth = 0
         self.subst = {}
+        self.passes = 0        # loop heads this path went through without ending there (control-flag settings other than the head's own)
 
     def fork(self):
         p = Path(self.src)
@@ -119,6 +120,7 @@ class Path:
         p.events = list(self.events)
         p.depth = self.depth
         p.subst = dict(self.subst)
+        p.passes = self.passes
         return p
 
 
@@ -167,13 +169,121 @@ def is_closed(v, frozen=()):
     return True
 
 
+# ---------------------------------------------------------------------------
+# control flags: boolean / small-enum locals that only ever hold constants.  They are part of the *control* state: a loop head is a cut
+# point together with one setting of the flags that are live there (see Exec.arrive), never a symbolic state variable.
+def _is_flag_const(e):
+    return e[0] == "bool" or (e[0] == "num" and e[1].denominator == 1 and abs(e[1]) <= 16)
+
+
+def _is_bool_expr(e):
+    """an expression whose value is a truth value whatever its operands are: a comparison, `not`, `and` / `or` of such"""
+    k = e[0]
+    if k in ("cmp", "bool"):
+        return True
+    if k == "not":
+        return True
+    if k in ("and", "or"):
+        return _is_bool_expr(e[1]) and _is_bool_expr(e[2])
+    if k == "cond":
+        return all(_is_bool_expr(x) or _is_flag_const(x) for x in (e[2], e[3]))
+    return False
+
+
+def control_flags(f):
+    """names of the locals of a lowered function that are only ever assigned literal constants (False / True / small integers) or truth
+    values (`flag = X < Y`, read as `if X < Y: flag = True else: flag = False`): finitely many values, known on every path"""
+    params = {p[0] for p in f.params}
+    rhs, bad = {}, set(params)
+
+    def addr(e):
+        if isinstance(e, tuple):
+            if len(e) == 2 and e[0] == "addr" and isinstance(e[1], tuple) and e[1][:1] == ("var",):
+                bad.add(e[1][1])
+            for x in e:
+                addr(x)
+        elif isinstance(e, list):
+            for x in e:
+                addr(x)
+        elif isinstance(e, dict):
+            for x in e.values():
+                addr(x)
+    for s in R.walk_ir(f.body):
+        if s[0] == "set" and s[1][0] == "var":
+            rhs.setdefault(s[1][1], []).append(s[2])
+        elif s[0] == "unpack":
+            bad |= {lv[1] for lv in s[1] if lv[0] == "var"}
+        elif s[0] == "havoc":
+            bad.add(s[1])
+        addr(s[1:] if s[0] not in ("if", "loop") else (s[1],))
+    return {v for v, es in rhs.items() if v not in bad and not v.startswith("%") and all(_is_flag_const(e) or _is_bool_expr(e) for e in es)}
+
+
+def flag_liveness(body, flags):
+    """{id(loop statement): flags that are live at its head}: read on some syntactic path from the head before being assigned.  A flag that
+    is dead at a head (assigned before every read: `half = j == 2` at the top of the body) is not part of that head's control state"""
+    res = {}
+    top_labels = [i for i, s in enumerate(body) if s[0] == "label"]
+    for v in sorted(flags):
+        def uses(e):
+            return e is not None and v in R.expr_vars(e)
+        # `goto`: conservatively, live when the flag is mentioned anywhere from the first label on
+        goto_live = bool(top_labels) and any(uses(s) for s in R.walk_ir(body[top_labels[0]:]))
+
+        def seq(stmts, out, brk, cont):
+            live = out
+            for s in reversed(stmts):
+                live = one(s, live, brk, cont)
+            return live
+
+        def one(s, out, brk, cont):
+            k = s[0]
+            if k == "set":
+                rd = uses(s[2]) or (s[1][0] != "var" and uses(s[1]))
+                return rd if s[1] == ("var", v) else (rd or out)
+            if k == "unpack":
+                return uses(s[2]) or any(lv[0] != "var" and uses(lv) for lv in s[1]) or out
+            if k == "expr":
+                return uses(s[1]) or out
+            if k in ("return", "raise"):
+                return uses(s[1])
+            if k == "havoc":
+                return False if s[1] == v else out
+            if k == "if":
+                return uses(s[1]) or seq(s[2], out, brk, cont) or seq(s[3], out, brk, cont)
+            if k == "break":
+                return bool(brk)
+            if k == "continue":
+                return bool(cont)
+            if k == "goto":
+                return goto_live
+            if k == "loop":
+                head = False
+                for _ in range(3):
+                    step_in = seq(s[3], head, out, False)
+                    body_in = seq(s[2], step_in, out, step_in)
+                    new = uses(s[1]) or body_in or (s[1] is not None and out)
+                    if new == head:
+                        break
+                    head = new
+                if head:
+                    res.setdefault(id(s), set()).add(v)
+                else:
+                    res.setdefault(id(s), set())
+                return head
+            return out
+        seq(body, False, False, False)
+    return res
+
+
 FREE_NAMES = ("free", "PyMem_Free", "PyMem_RawFree")
 NP_ALLOC = ("np.empty", "np.zeros", "numpy.empty", "numpy.zeros")
 NP_LIKE = ("np.empty_like", "np.zeros_like", "numpy.empty_like", "numpy.zeros_like")
 
 
 class Exec:
-    def __init__(self, unit, fname, mode="kernel", param_kinds=None, int_names=None, label=None, array_len=None):
+    def __init__(self, unit, fname, mode="kernel", param_kinds=None, int_names=None, label=None, array_len=None, probe=False, primary=None):
+        self._ctor = dict(mode=mode, param_kinds=param_kinds, int_names=int_names, label=label, array_len=array_len)
         self.unit = unit
         self.f = unit.func(fname)
         self.mode = mode
@@ -202,6 +312,14 @@ class Exec:
         self.array_len = dict(array_len or {})
         self.limit = 4000
         self.steps = 0
+        # control flags (see control_flags): `probe` = every (loop head, setting of its live flags) is its own cut point; otherwise a head
+        # is cut only under its `primary` setting and a path that arrives under another one runs on through the head
+        self.flags = control_flags(self.f)
+        self.flag_live = flag_liveness(self.f.body, self.flags) if self.flags else {}
+        self.probe = probe
+        self.primary = dict(primary or {})
+        self.settings = {}         # probe: loop id -> {composite cut point name: setting}
+        self.folded = []           # notes: which flags were folded into which head
 
     # ---- typing
     def _infer_ints(self):
@@ -810,6 +928,10 @@ class Exec:
                 return self.block([s2] + list(rest), p, K)
         nxt = (lambda q: self.block(rest, q, K)) if rest else K["fall"]
         k = s[0]
+        if k == "set" and s[1][0] == "var" and s[1][1] in self.flags and not _is_flag_const(s[2]) and _is_bool_expr(s[2]):
+            # `flag = X < Y`  ==  `if X < Y: flag = True else: flag = False`: the flag holds a constant on every path
+            yes, no = (("num", Fraction(1)), ("num", Fraction(0))) if self.is_c else (("bool", True), ("bool", False))
+            return self.block([("if", s[2], [("set", s[1], yes)], [("set", s[1], no)])] + list(rest), p, K)
         if k == "set":
             return self.assign(s[1], s[2], p, nxt)
         if k == "unpack":
@@ -1139,10 +1261,43 @@ class Exec:
             return self.branch(s[1], q, lambda r: self.block(s[2], r, Kb), nxt)
         return self.arrive(node, s, p, from_head)
 
+    def _live_flags(self, s):
+        """the control flags that are live at the head of loop s (a rotated loop: those of the loop it was read from, and of its own test)"""
+        if not self.flags:
+            return ()
+        orig = self._orig.get(id(s), s)
+        live = set(self.flag_live.get(id(orig), ()))
+        if orig is not s and s[1] is not None:
+            live |= self.flags & R.expr_vars(s[1])
+        return tuple(sorted(live))
+
     def arrive(self, node, s, p, from_head):
+        live = self._live_flags(s)
+        if live:
+            setting = tuple((v, p.env.get(v)) for v in live)
+            for v, x in setting:
+                if x is not None and x != ("unknown",) and not _is_flag_const(x):
+                    raise Unsupported(f"control flag `{v}` arrives at {node} with a value that is not a constant: {show(x)}")
+            if self.probe:
+                # every (head, setting) pair is a control state of its own
+                lid = node
+                node = lid + "#" + ",".join(f"{v}={show(x) if x is not None else '-'}" for v, x in setting)
+                self.settings.setdefault(lid, {})[node] = setting
+            else:
+                prim = self.primary.setdefault(node, setting)
+                if setting != prim:
+                    # the head's control state is (head, primary setting); under another setting the path simply runs on through the
+                    # loop test and whatever follows (forward substitution of the flag) until it reaches a control state that is a cut point
+                    p.passes += 1
+                    if p.passes > 12:
+                        raise Unsupported(f"a path goes through loop heads more than 12 times under control-flag settings other than the heads' own ({node}: {live})")
+                    return from_head(p)
+                note = f"{node}: control flag(s) {', '.join(f'{v} = {show(x) if x is not None else chr(45)}' for v, x in setting)} folded into the cut point"
+                if note not in self.folded:
+                    self.folded.append(note)
         first = node not in self.templates
         if first:
-            self.templates[node] = self.make_template(node, s, p)
+            self.templates[node] = self.make_template(node, s, p, live)
             self.node_order.append(node)
         self.record(p, node)
         if first:
@@ -1156,7 +1311,7 @@ class Exec:
                     q.env[v] = ("var", v)
             from_head(q)
 
-    def make_template(self, node, s, p):
+    def make_template(self, node, s, p, live=()):
         assigned = R.assigned_vars(s[2]) | R.assigned_vars(s[3])
         t = {}
         for v, val in p.env.items():
@@ -1164,6 +1319,8 @@ class Exec:
                 raise Unsupported("a helper's local variable is live at a loop head")
             if val == ("unknown",):
                 t[v] = ("const", val)
+            elif v in live and _is_flag_const(val):
+                t[v] = ("const", val)           # part of the control state of this cut point
             elif is_closed(val) and v not in assigned:
                 t[v] = ("const", val)
             elif val[0] == "ptr" and v not in assigned and v not in self.frozen and is_closed(val, self.frozen):
@@ -1200,7 +1357,61 @@ class Exec:
         self.record(p, dst, ret=ret, exc=exc)
 
     # ---- driver
+    def _choose_primaries(self, args):
+        """which setting of its live control flags is a loop head's own: a first execution in which every (head, setting) pair is a cut
+        point gives the graph of control states; the setting under which the loop *iterates* (the pair lies on a cycle inside the loop's own
+        nest) is the head's, every other setting is transient (the way into the loop, or out of it) and is folded into the paths that go
+        through it.  Two iterating settings (a mode switch that persists across iterations) are not reducible to one head: undecided."""
+        pr = Exec(self.unit, self.f.name, probe=True, **self._ctor)
+        pr.opaque = set(self.opaque)
+        pr.limit = self.limit
+        pr.run(args)
+        if not pr.settings:
+            return
+        parent = {}
+        for s, depth, par in pr.loops:
+            parent[pr.loop_ids[id(s)]] = pr.loop_ids[id(par)] if par is not None else None
+
+        def lid_of(name):
+            return name.split("#")[0]
+
+        def in_nest(name, root):
+            x = lid_of(name)
+            while x is not None:
+                if x == root:
+                    return True
+                x = parent.get(x)
+            return False
+        succ = {}
+        for t in pr.trans:
+            succ.setdefault(t["src"], set()).add(t["dst"])
+        for lid, names in pr.settings.items():
+            if len(names) == 1:
+                self.primary[lid] = next(iter(names.values()))
+                continue
+            rec = []
+            for c in names:
+                seen, todo = set(), [c]
+                while todo:
+                    x = todo.pop()
+                    for y in succ.get(x, ()):
+                        if y not in seen and in_nest(y, lid):
+                            seen.add(y)
+                            todo.append(y)
+                if c in seen:
+                    rec.append(c)
+            if len(rec) == 1:
+                self.primary[lid] = names[rec[0]]
+            elif not rec:
+                first = [n for n in pr.node_order if n in names]
+                self.primary[lid] = names[first[0]]
+            else:
+                raise Unsupported(f"{self.label}: the loop at {lid} iterates under {len(rec)} different settings of its control flags "
+                                  f"({'; '.join(sorted(x.split('#', 1)[1] for x in rec))}): not reducible to one loop head")
+
     def run(self, args=None):
+        if self.flags and not self.probe and not self.primary and any(self.flag_live.values()):
+            self._choose_primaries(args)
         p = Path(START)
         for i, (nm, cls, q) in enumerate(self.f.params):
             kind = self.param_kinds[i] if i < len(self.param_kinds) else None
